@@ -6,6 +6,7 @@ import (
 	"fmt"
 	"sort"
 	"strings"
+	"time"
 
 	"github.com/orda-io/orda/client/pkg/iface"
 	"github.com/orda-io/orda/client/pkg/model"
@@ -372,6 +373,71 @@ func (w *world) deliver(ri int, units int) {
 	}
 }
 
+// malformed: hand replica ri a mutated copy of the next foreign transaction unit in the log
+// (truncated, or with a count of 0 / negative / too large).  The cursor is not moved and the
+// unit must be refused as a whole: nothing of it may be applied.
+func (w *world) malformed(ri int) bool {
+	r := w.reps[ri]
+	// find the next foreign multi-operation unit at or after the cursor
+	for i := r.cursor; i < len(w.log); i = w.unitEnd(i) {
+		end := w.unitEnd(i)
+		if w.log[i].author == ri || end-i < 2 || end > len(w.log) {
+			continue
+		}
+		var unit []*model.Operation
+		for j := i; j < end; j++ {
+			unit = append(unit, w.log[j].op)
+		}
+		hdr := operations.ModelToOperation(unit[0]).(*operations.TransactionOperation)
+		mk := func(n int) *model.Operation {
+			t := operations.NewTransactionOperation(hdr.GetBody().Tag)
+			t.SetNumOfOps(n)
+			t.SetID(unit[0].ID)
+			return t.ToModelOperation()
+		}
+		var ops []*model.Operation
+		kind := w.c.Rng.Intn(4)
+		switch kind {
+		case 0: // truncated: the last operation is missing
+			ops = append([]*model.Operation{}, unit[:len(unit)-1]...)
+		case 1: // count too large
+			ops = append([]*model.Operation{mk(len(unit) + 1 + w.c.Rng.Intn(3))}, unit[1:]...)
+		case 2: // zero count
+			ops = append([]*model.Operation{mk(0)}, unit[1:]...)
+		case 3: // negative count
+			ops = append([]*model.Operation{mk(-1 - w.c.Rng.Intn(3))}, unit[1:]...)
+		}
+		beforeV, beforeS := r.view()
+		var err error
+		done := make(chan bool, 1)
+		var p bool
+		var msg string
+		go func() {
+			p, msg = guarded(func() { _, err = r.dt.ReceiveRemoteModelOperations(ops, false) })
+			done <- true
+		}()
+		select {
+		case <-done:
+		case <-time.After(3 * time.Second):
+			w.c.Violate("C09", "malformed-unit-hangs", fmt.Sprintf("%s: delivering a transaction unit with a bad count (kind %d) never returns", w.kind, kind), w.desc)
+			panic("hang in ReceiveRemoteModelOperations")
+		}
+		if p {
+			w.c.Violate("C09", "malformed-unit-panics", fmt.Sprintf("%s: delivering a malformed transaction unit (kind %d) panicked: %s", w.kind, kind, msg), w.desc)
+			panic("panic in ReceiveRemoteModelOperations: " + msg)
+		}
+		v, sz := r.view()
+		if v != beforeV || sz != beforeS || err == nil {
+			w.c.Violate("C09", "malformed-unit-applied", fmt.Sprintf("%s: a malformed transaction unit (kind %d) was accepted (err=%v) or changed the state", w.kind, kind, err), w.desc)
+		}
+		w.evs = append(w.evs, fmt.Sprintf("ERecv %s %s %s %s %s", gNat(ri), gOps(ops), gBool(err == nil), v, sz))
+		w.desc = append(w.desc, fmt.Sprintf("malformed unit (kind %d) to r%d", kind, ri))
+		w.c.Count("ev-malformed-unit")
+		return true
+	}
+	return false
+}
+
 func obsOf(res string, err error, panicked bool) string {
 	if panicked {
 		return "OPanic"
@@ -493,7 +559,11 @@ func (w *world) rndCall(r *replica) callSpec {
 		case 1:
 			pos = -1
 		}
-		switch k := rng.Intn(10); {
+		k := rng.Intn(10)
+		if size < 3 && rng.Intn(4) != 0 {
+			k = 0
+		}
+		switch {
 		case k < 5: // insert
 			n := 1
 			if rng.Intn(4) == 0 {
@@ -671,10 +741,10 @@ type txCounter struct {
 }
 
 func (t txCounter) Transaction(tag string, f func(orda.CounterInTx) error) error { return nil }
-func (t txCounter) GetType() model.TypeOfDatatype                                  { return t.full.GetType() }
-func (t txCounter) GetState() model.StateOfDatatype                                { return t.full.GetState() }
-func (t txCounter) GetKey() string                                                 { return t.full.GetKey() }
-func (t txCounter) ToJSON() interface{}                                            { return t.full.ToJSON() }
+func (t txCounter) GetType() model.TypeOfDatatype                                { return t.full.GetType() }
+func (t txCounter) GetState() model.StateOfDatatype                              { return t.full.GetState() }
+func (t txCounter) GetKey() string                                               { return t.full.GetKey() }
+func (t txCounter) ToJSON() interface{}                                          { return t.full.ToJSON() }
 
 type txMap struct {
 	orda.MapInTx
@@ -682,10 +752,10 @@ type txMap struct {
 }
 
 func (t txMap) Transaction(tag string, f func(orda.MapInTx) error) error { return nil }
-func (t txMap) GetType() model.TypeOfDatatype                          { return t.full.GetType() }
-func (t txMap) GetState() model.StateOfDatatype                        { return t.full.GetState() }
-func (t txMap) GetKey() string                                         { return t.full.GetKey() }
-func (t txMap) ToJSON() interface{}                                    { return t.full.ToJSON() }
+func (t txMap) GetType() model.TypeOfDatatype                            { return t.full.GetType() }
+func (t txMap) GetState() model.StateOfDatatype                          { return t.full.GetState() }
+func (t txMap) GetKey() string                                           { return t.full.GetKey() }
+func (t txMap) ToJSON() interface{}                                      { return t.full.ToJSON() }
 
 type txList struct {
 	orda.ListInTx
@@ -693,10 +763,10 @@ type txList struct {
 }
 
 func (t txList) Transaction(tag string, f func(orda.ListInTx) error) error { return nil }
-func (t txList) GetType() model.TypeOfDatatype                           { return t.full.GetType() }
-func (t txList) GetState() model.StateOfDatatype                         { return t.full.GetState() }
-func (t txList) GetKey() string                                          { return t.full.GetKey() }
-func (t txList) ToJSON() interface{}                                     { return t.full.ToJSON() }
+func (t txList) GetType() model.TypeOfDatatype                             { return t.full.GetType() }
+func (t txList) GetState() model.StateOfDatatype                           { return t.full.GetState() }
+func (t txList) GetKey() string                                            { return t.full.GetKey() }
+func (t txList) ToJSON() interface{}                                       { return t.full.ToJSON() }
 
 // ---------- the slice ----------
 
@@ -727,9 +797,15 @@ func sliceCrdt(c *Ctx, kind string) {
 				case k < 63:
 					w.cur = "transaction"
 					w.tx(ri)
-				case k < 80:
+				case k < 78:
 					w.cur = "push"
 					w.push(ri)
+				case k < 84:
+					w.cur = "transaction"
+					if !w.malformed(ri) {
+						w.cur = "delivery"
+						w.deliver(ri, 1)
+					}
 				default:
 					w.cur = "delivery"
 					w.deliver(ri, 1+c.Rng.Intn(3))
